@@ -14,7 +14,8 @@ import traceback
 from . import build, sym, model, rules, props
 
 VERIF = build.VERIF
-LEVELS = {}
+from . import meta
+LEVELS = {k: v['level'] for k, v in meta.META.items()}
 
 
 def known_findings():
@@ -133,9 +134,10 @@ def check(prop, tier):
         'wall_s': round(time.time() - t0, 2),
         'violations': len(new),
     }
-    os.makedirs(os.path.join(VERIF, 'evidence'), exist_ok=True)
-    with open(os.path.join(VERIF, 'evidence', prop + '.json'), 'w') as fh:
-        json.dump(ev, fh, indent=1, default=str)
+    if not os.environ.get('VERIF_NO_EVIDENCE'):
+        os.makedirs(os.path.join(VERIF, 'evidence'), exist_ok=True)
+        with open(os.path.join(VERIF, 'evidence', prop + '.json'), 'w') as fh:
+            json.dump(ev, fh, indent=1, default=str)
     print(f'check {prop} [{tier}]: {obligations} obligations, {discharged} discharged, {len(undecided)} undecided, '
           f'{len(hit)} known findings, {len(new)} violations, {ev["wall_s"]}s')
     return rc
